@@ -323,6 +323,22 @@ Fixpoint count_distinct_sorted (l : list Z) : Z :=
   end.
 Definition count_distinct (l : list Z) : Z := count_distinct_sorted (zsort l).
 
+(* the from-vertex lists of the halffaces, one list per halfface (fix "checked tet add_cell must reject four triangles on fewer than four
+   vertex triples": the std::set of the four std::set<VertexHandle>); two lists denote the same set iff each is included in the other *)
+Fixpoint cell_triples (edges : list (Z * Z)) (faces : list (list Z)) (hfs : list Z) : R (list (list Z)) :=
+  match hfs with
+  | [] => Ret []
+  | h :: t => do a <- hf_halfedges faces h; do b <- cell_triples edges faces t; Ret (map (he_from_t edges) a :: b)
+  end.
+Definition same_zset (a b : list Z) : bool :=
+  forallb (fun x => existsb (fun y => x =? y) b) a && forallb (fun x => existsb (fun y => x =? y) a) b.
+Fixpoint distinct_zsets (l : list (list Z)) : list (list Z) :=
+  match l with
+  | [] => []
+  | x :: t => if existsb (same_zset x) t then distinct_zsets t else x :: distinct_zsets t
+  end.
+Definition count_distinct_sets (l : list (list Z)) : Z := len (distinct_zsets l).
+
 (* one side of HexahedralMeshTopologyKernel::check_halfface_ordering: offset = -1 until the first match *)
 Fixpoint order_side (faces : list (list Z)) (hfs : list Z) (top : Z) (first4 order : list nat) (hes : list Z) (offset : Z) : R (option Z) :=
   match hes with
@@ -422,7 +438,10 @@ Definition mesh_add_cell (o : opts) (edges : list (Z * Z)) (faces : list (list Z
         else
           (* fix "checked tet add_cell must reject four triangles that are not a tetrahedron": exactly four distinct vertices *)
           do vs <- cell_from_vertices edges faces hfs;
-          if negb (count_distinct vs =? 4) then Ret None else base_add_cell faces hfs true
+          if negb (count_distinct vs =? 4) then Ret None else
+          (* fix "checked tet add_cell must reject four triangles on fewer than four vertex triples" *)
+          do ts <- cell_triples edges faces hfs;
+          if negb (count_distinct_sets ts =? 4) then Ret None else base_add_cell faces hfs true
       else Ret None
   | MHex =>
       if len hfs =? 6 then
